@@ -288,6 +288,9 @@ def _wrapper_strategy(tier, w):
             "shape": shape,
             "x_range": draw(gen.nice_or_log(0.1, 10.0)),
             "polys": {k: draw(st.lists(coef, min_size=20, max_size=20)) for k in POLY_KEYS},
+            # memory layout of each array handed to the compiled wrapper (cycled)
+            "layouts": draw(st.lists(st.sampled_from(["contig", "contig", "strided_last", "component_last", "subblock", "fortran"]),
+                                     min_size=3, max_size=3)),
             "prefactor": draw(st.one_of(gen.floats(-3.0, 3.0, 32), gen.floats(-3.0, 3.0, 32), gen.floats(-3.0, 3.0, 32),
                                        st.sampled_from([0.0, 1.0, -1.0]))),  # exact 0 = inviscid / switched-off operator
             "threads": draw(st.sampled_from([False, 1, 2])),
@@ -395,8 +398,18 @@ def _body_wrappers(case, ctx):
     P = {key: FPoly(c, 2, dim) for key, c in case["polys"].items()}
     eps = float(np.finfo(np.float64).eps)
 
+    from .c12 import _lay
+
+    lays = list(case.get("layouts", ["contig"]))
+    nlay = [0]
+
+    def lay(arr):
+        """same values in the next drawn memory layout (contiguous, strided last axis, component-last, sub-block, Fortran)"""
+        nlay[0] += 1
+        return _lay(np.asarray(arr, dtype=np.float64), lays[(nlay[0] - 1) % len(lays)], dim)
+
     def vec(keys):
-        return np.stack([P[q](pos) for q in keys])
+        return lay(np.stack([P[q](pos) for q in keys]))
 
     def fcurl(F, c):
         fx, fy, fz = F
@@ -410,15 +423,15 @@ def _body_wrappers(case, ctx):
     checks = []  # (got, want, scale)
     big = sum(p.absval(pos) for p in P.values()) + 1.0
     if name in ("diffusion_flux_2d", "diffusion_flux_3d"):
-        f = P["f"](pos)
-        out = np.full(shape, 7.0)
+        f = lay(P["f"](pos))
+        out = lay(np.full(shape, 7.0))
         with ctx.repo_call(name):
             k(diffusion_flux=out, field=f, prefactor=pre)
         lap = sum(P["f"].d(v).d(v)(pos) for v in range(dim))
         checks.append((out[inner], (pre * dx * dx * lap)[inner], abs(pre) * (2 * dim + 1) * big[inner]))
     elif name == "diffusion_flux_vec_3d":
         F = vec(["Fx", "Fy", "Fz"])
-        out = np.full((3, *shape), 7.0)
+        out = lay(np.full((3, *shape), 7.0))
         with ctx.repo_call(name):
             k(vector_field_diffusion_flux=out, vector_field=F, prefactor=pre)
         for c, q in enumerate(["Fx", "Fy", "Fz"]):
@@ -426,20 +439,20 @@ def _body_wrappers(case, ctx):
             checks.append((out[c][inner], (pre * dx * dx * lap)[inner], abs(pre) * 7 * big[inner]))
     elif name == "inplane_curl_2d":
         F = vec(["Fx", "Fy"])
-        out = np.full(shape, 7.0)
+        out = lay(np.full(shape, 7.0))
         with ctx.repo_call(name):
             k(curl=out, field=F, prefactor=pre)
         want = pre * 2 * dx * (P["Fy"].d(0)(pos) - P["Fx"].d(1)(pos))
         checks.append((out[inner], want[inner], abs(pre) * 4 * big[inner]))
     elif name == "outplane_curl_2d":
-        f = P["f"](pos)
-        out = np.full((2, *shape), 7.0)
+        f = lay(P["f"](pos))
+        out = lay(np.full((2, *shape), 7.0))
         with ctx.repo_call(name):
             k(curl=out, field=f, prefactor=pre)
         checks.append((out[0][inner], (pre * 2 * dx * P["f"].d(1)(pos))[inner], abs(pre) * 2 * big[inner]))
         checks.append((out[1][inner], (-pre * 2 * dx * P["f"].d(0)(pos))[inner], abs(pre) * 2 * big[inner]))
     elif name in ("update_forcing_2d", "update_penalised_2d"):
-        w = P["w0"](pos)
+        w = lay(P["w0"](pos))
         w0 = w.copy()
         F = vec(["Fx", "Fy"])
         if name == "update_forcing_2d":
@@ -454,7 +467,7 @@ def _body_wrappers(case, ctx):
         checks.append((w[inner], want[inner], (1 + abs(pre) * 8) * big[inner]))
     elif name == "curl_3d":
         F = vec(["Fx", "Fy", "Fz"])
-        out = np.full((3, *shape), 7.0)
+        out = lay(np.full((3, *shape), 7.0))
         with ctx.repo_call(name):
             k(curl=out, field=F, prefactor=pre)
         for c in range(3):
@@ -462,7 +475,7 @@ def _body_wrappers(case, ctx):
                            abs(pre) * 4 * big[inner]))
     elif name == "divergence_3d":
         F = vec(["Fx", "Fy", "Fz"])
-        out = np.full(shape, 7.0)
+        out = lay(np.full(shape, 7.0))
         with ctx.repo_call(name):
             k(divergence=out, field=F, inv_dx=1.0 / dx)
         want = P["Fx"].d(0)(pos) + P["Fy"].d(1)(pos) + P["Fz"].d(2)(pos)
@@ -485,7 +498,7 @@ def _body_wrappers(case, ctx):
     elif name == "stretching_flux_3d":
         W = vec(["Wx", "Wy", "Wz"])
         U = vec(["Fx", "Fy", "Fz"])
-        out = np.full((3, *shape), 7.0)
+        out = lay(np.full((3, *shape), 7.0))
         with ctx.repo_call(name):
             k(vorticity_stretching_flux_field=out, vorticity_field=W, velocity_field=U, prefactor=pre)
         for c, q in enumerate(["Fx", "Fy", "Fz"]):
@@ -497,9 +510,9 @@ def _body_wrappers(case, ctx):
         f = FPoly(case["polys"]["f"], df, dim)
         comps = ["Fx", "Fy", "Fz"][:dim]
         U = [FPoly(case["polys"][q], 2 - df, dim) for q in comps]
-        vel = np.stack([u(pos) for u in U])
-        fld = f(pos)
-        out = np.zeros(shape)
+        vel = lay(np.stack([u(pos) for u in U]))
+        fld = lay(f(pos))
+        out = lay(np.zeros(shape))
         with ctx.repo_call(name):
             k(advection_flux=out, field=fld, velocity=vel, inv_dx=1.0 / dx)
         want = sum((f * U[v]).d(v)(pos) for v in range(dim))
@@ -521,7 +534,7 @@ def _body_wrappers(case, ctx):
             raise Violation(f"{name}: compiled wrapper differs from the analytic operator at interior cell {tuple(int(q) for q in i)}: "
                             f"got {got[i]!r} want {want[i]!r} (shape {list(shape)}, dx {dx:.4g}, prefactor {pre})")
     ctx.extra["max_err_over_tol"] = max(ctx.extra.get("max_err_over_tol", 0.0), worst)
-    ctx.note(nontrivial=len(set(shape)) > 1, labels=[name, "noncubic" if len(set(shape)) > 1 else "cubic"])
+    ctx.note(nontrivial=len(set(shape)) > 1, labels=[name, "noncubic" if len(set(shape)) > 1 else "cubic"] + sorted({"layout_" + q for q in lays}))
 
 
 def _filter_on_quadratics(case, ctx, shape, dx, pos):
